@@ -7,10 +7,12 @@ import (
 	"go/types"
 	"os"
 	"sort"
+	"strings"
 )
 
 // checkers maps a property id to its rule set.
 var checkers = map[string]func(r *Report){
+	"C05": checkC05,
 	"C17": checkC17,
 }
 
@@ -40,6 +42,27 @@ func main() {
 		sort.Strings(ids)
 		for _, id := range ids {
 			fmt.Println(id)
+		}
+	case "debug-effect":
+		if len(os.Args) > 2 {
+			repoRoot = os.Args[2]
+		}
+		p := loadResolve("", true)
+		e := runEffect(p)
+		fmt.Printf("functions %d passes %d globals %d sites %d srcCalls %d\n", len(p.Funcs), e.passes, len(e.globals), len(e.allSites), len(e.srcCalls))
+		for _, r := range e.sortedReports() {
+			fmt.Printf("%s: %s memory written in %s: %s (at %s in %s) via %q\n", p.pos(r.pos), r.origin, fnKey(r.fn), r.site.desc, p.pos(r.site.pos), fnKey(r.site.fn), r.via)
+		}
+		if len(os.Args) > 3 {
+			for _, f := range p.Funcs {
+				if strings.Contains(f.String(), os.Args[3]) {
+					s := e.sums[f]
+					fmt.Printf("SUM %s ret=%v flow=%v wglobal=%d rglobal=%d\n", f, s.ret, s.flow, len(s.wglobal), len(s.rglobal))
+					for st, o := range s.writes {
+						fmt.Printf("   writes %x/%x at %s: %s\n", o.p, o.g, p.pos(st.pos), st.desc)
+					}
+				}
+			}
 		}
 	case "check":
 		fs := flag.NewFlagSet("check", flag.ExitOnError)
